@@ -637,17 +637,30 @@ class bitarray:
         with NoTracing():
             return C.wrap_bool(C.eq(C.take(self._v, self._n, p, sub._n), sub._v, sub._n))
 
+    def _match_terms(self, sub, cands):
+        """tracing off: list of python bools / z3 Bool terms, one per candidate position"""
+        return [C.eq(C.take(self._v, self._n, p, sub._n), sub._v, sub._n) for p in cands]
+
     def find(self, sub, start=0, stop=_MISSING, /, right=False):
         sub = self._pattern(sub)
         start, stop = self._window(start, stop)
         m = sub._n
         if stop - start < m:
             return -1
-        rng = range(stop - m, start - 1, -1) if right else range(start, stop - m + 1)
-        for p in rng:
-            if self._match(sub, p):
-                return p
-        return -1
+        cands = list(range(stop - m, start - 1, -1) if right else range(start, stop - m + 1))
+        with NoTracing():
+            terms = self._match_terms(sub, cands)
+            if all(isinstance(t, bool) for t in terms):
+                for p, t in zip(cands, terms):
+                    if t:
+                        return p
+                return -1
+            # symbolic contents: the result is a single If-chain over the (concrete) candidates - no fork per candidate
+            z3 = C.z3
+            r = z3.IntVal(-1)
+            for p, t in reversed(list(zip(cands, terms))):
+                r = z3.If(t if not isinstance(t, bool) else z3.BoolVal(t), z3.IntVal(p), r)
+            return C.SymbolicInt(r)
 
     def index(self, sub, start=0, stop=_MISSING, /, right=False):
         r = self.find(sub, start, stop, right=right)
@@ -664,12 +677,37 @@ class bitarray:
         m = sub._n
         if stop - start < m:
             return
-        rng = range(stop - m, start - 1, -1) if right else range(start, stop - m + 1)
-        for p in rng:
-            if p + m > self._n:  # array may have shrunk while iterating
-                continue
-            if self._match(sub, p):
-                yield p
+        cands = list(range(stop - m, start - 1, -1) if right else range(start, stop - m + 1))
+        with NoTracing():
+            symbolic = C.is_bv(self._v) or C.is_bv(sub._v)
+        if not symbolic:
+            for p in cands:
+                if p + m > self._n:  # array may have shrunk while iterating
+                    continue
+                if self._match(sub, p):
+                    yield p
+            return
+        # symbolic contents: the k-th match position is a term; the only fork is "is there a k-th match?"
+        with NoTracing():
+            z3 = C.z3
+            terms = [t if not isinstance(t, bool) else z3.BoolVal(t) for t in self._match_terms(sub, cands)]
+            before = []
+            acc = z3.IntVal(0)
+            for t in terms:
+                before.append(acc)
+                acc = acc + z3.If(t, 1, 0)
+        k = 0
+        while True:
+            with NoTracing():
+                kth = [z3.And(t, b == k) for t, b in zip(terms, before)]
+                exists = C.SymbolicBool(z3.Or(*kth)) if kth else False
+                pos = z3.Sum(*[z3.If(c, z3.IntVal(p), z3.IntVal(0)) for c, p in zip(kth, cands)]) if len(kth) > 1 else z3.If(kth[0], z3.IntVal(cands[0]), z3.IntVal(0))
+            if not exists:
+                return
+            with NoTracing():
+                out = C.SymbolicInt(pos)
+            yield out
+            k += 1
 
     # ------------------------------------------------------------ conversions
     def tobytes(self):
